@@ -40,6 +40,8 @@ type World struct {
 	// cur is non-nil while a simulated concurrent client runs; the SimKV
 	// transaction hook parks that client.
 	onTx func(write bool)
+	// lockYields counts scheduling points reached before a mutex acquisition
+	lockYields int
 }
 
 var hashes [NHash][32]byte
@@ -106,6 +108,17 @@ func NewWorld(r *simcore.Run, nCh, nIn int) *World {
 			w.onTx(write)
 		}
 	}
+	// Second kind of scheduling point: before every mutex acquisition in
+	// circuit_map.go (the check compiles an instrumented copy of that file,
+	// see lock_yield_overlay in /verif/check). A goroutine about to take
+	// cm.mtx holds nothing, so parking it there cannot block the others.
+	htlcswitch.ZzLockYield = func() {
+		if w.onTx != nil {
+			w.lockYields++
+			w.onTx(false)
+		}
+	}
+	r.Cleanup(func() { htlcswitch.ZzLockYield = nil })
 	db, err := channeldb.CreateWithBackend(kv)
 	r.Must(err, "channeldb create")
 	w.DB = db
